@@ -136,6 +136,7 @@ type zzG struct {
 	enqueued     bool               // I appended a request to the handler queue
 	enqueuedShut bool               // ... while the connection was shutting down
 	refusedShut  bool               // my last section ended in a shutting-down state
+	brokenAtPost bool               // ... with the read or the write side broken (not merely Close called)
 	dupSeen      bool               // my first section found otherReq registered
 	doneSeen     bool               // a section of mine ended with done closed (stable: done is monotone)
 	taken        []*incomingRequest // requests I (the dispatcher) took off the queue
@@ -447,6 +448,7 @@ func (g *zzG) post() {
 	} else {
 		g.refusedShut = false
 	}
+	g.brokenAtPost = s.readErr != nil || s.writeErr != nil
 	// ---- my own call
 	if g.mine == nil {
 		for _, ac := range s.outgoingCalls { // learn the call that Call registered
@@ -738,8 +740,12 @@ func zzConnProcessResult() {
 	g.myIn = 1
 	writeAdmissionRefused := false
 	g.onPost = func() {
-		if isCall && g.sections == 2 && g.refusedShut {
-			writeAdmissionRefused = true // section 2 of processResult for a call is write()'s admission check
+		if isCall && g.sections == 2 && g.refusedShut && g.brokenAtPost {
+			// section 2 of processResult for a call is write()'s admission check. Only a BROKEN connection excuses a
+			// missing answer: when Close was merely called, the handler was let run to completion and the transport is
+			// still open — its response is written (D17: it used to be refused, and two peers serving each other's calls
+			// waited for each other forever).
+			writeAdmissionRefused = true
 		}
 	}
 	g.install()
